@@ -473,6 +473,8 @@ class Engine:
         if shape[0] == "seq":
             self.fresh_counter += 1
             return SymSeq.fresh(shape[1], f"{name}!{self.fresh_counter}")
+        if shape[0] == "opt":
+            return V.OptVal(self.fresh("bool", "none_" + name), self.fresh_of_shape(shape[1], name))
         leaves = [self.fresh(s, name) for s in V.leaves_of(shape)]
         v, _ = V.unflatten(shape, leaves)
         return v
@@ -500,6 +502,8 @@ class Engine:
             return SymSeq.fresh(cur.shape, f"{name}!{self.fresh_counter}")
         if isinstance(cur, NdVec):
             return NdVec([self.fresh("real" if cur.kind == "real" else "int", name) for _ in cur.items], cur.kind)
+        if isinstance(cur, V.OptVal):
+            return V.OptVal(self.fresh("bool", "none_" + name), self.fresh_like(cur.value, name))
         if isinstance(cur, tuple):
             return tuple(self.fresh_like(x, name) for x in cur)
         if isinstance(cur, str):
@@ -804,6 +808,10 @@ class Engine:
         return (not r) if isinstance(r, bool) else z3.Not(r)
 
     def identical(self, a, b):
+        if isinstance(a, V.OptVal) and b is None:
+            return a.is_none
+        if isinstance(b, V.OptVal) and a is None:
+            return b.is_none
         if a is None or b is None:
             return a is b
         if isinstance(a, PyType) and isinstance(b, PyType):
@@ -916,11 +924,20 @@ class Engine:
     def ex_BinOp(self, e):
         return self.binop(e.op, self.eval(e.left), self.eval(e.right))
 
+    def unwrap(self, v):
+        """Optional value used as a value: None raises TypeError (arithmetic on None), otherwise the payload"""
+        if isinstance(v, V.OptVal):
+            if self.branch(v.is_none):
+                raise _Raise("TypeError")
+            return v.value
+        return v
+
     def binop(self, op, a, b):
         if isinstance(a, MaybeUnbound):
             a = a.value
         if isinstance(b, MaybeUnbound):
             b = b.value
+        a, b = self.unwrap(a), self.unwrap(b)
         # strings / messages
         if isinstance(a, (str, OpaqueStr)) and isinstance(b, (str, OpaqueStr)) and isinstance(op, ast.Add):
             return OpaqueStr() if (isinstance(a, OpaqueStr) or isinstance(b, OpaqueStr)) else a + b
@@ -1087,6 +1104,9 @@ class Engine:
                 return base[lo:hi]
             if isinstance(base, OpaqueStr):
                 return OpaqueStr()
+            if isinstance(base, SymSeq):
+                # a slice of a symbolic sequence is only usable by callee stubs that accept it (e.g. np.sum -> fresh value)
+                return Obj("slice", attrs=dict(base=base, lo=lo, hi=hi))
             raise Unsupported("slice of a symbolic sequence")
         idx = self.eval(e.slice)
         return self.subscript(base, idx)
